@@ -40,9 +40,14 @@ Step == /\ phase = "run" /\ pc # "done"
         /\ (Start \/ (\E n \in Names : Examine(n)) \/ Decide)
         /\ UNCHANGED <<tid, l, phase>>
 
+(* keys whose signatures were made by the library's own signer (or shipped fixtures' signers): *)
+(* the independent oracle must find them among the valid signers                               *)
+MustOK == \A i \in DOMAIN Ev.must : Ev.must[i] \in Signers(case.sigs, case.auth, case.gpg)
+
 End == /\ phase = "run" /\ pc = "done"
        /\ PrintT("@@" \o ToJson([tid |-> Traces[tid].id, l |-> l,
-                                 ok |-> Ev.outcome \in Allowed(case),
+                                 ok |-> Ev.outcome \in Allowed(case) /\ MustOK,
+                                 must_ok |-> MustOK,
                                  allowed |-> Allowed(case), predicted |-> outcome,
                                  signers |-> Signers(case.sigs, case.auth, case.gpg)]))
        /\ l' = l + 1 /\ phase' = "idle"
